@@ -50,8 +50,8 @@ func (x *Exec) registerGhosts(fn *ssa.Function) {
 	x.ghostTy["chan.nextSend"] = ghostInfo{Arr: true, Opt: true, Sort: chanSeqSort, ValTy: tUint64}
 	module := "ophost"
 	pkgPath := ""
-	if fn.Pkg != nil {
-		pkgPath = fn.Pkg.Pkg.Path()
+	if p := pkgOf(fn); p != nil {
+		pkgPath = p.Pkg.Path()
 	}
 	if strings.Contains(pkgPath, "/opchild") {
 		module = "opchild"
@@ -132,6 +132,34 @@ func runCheck(prop, tier string, verbose bool) int {
 		if !found {
 			missing = append(missing, pat)
 		}
+	}
+	// close the set under "callee contract used": every repository contract a verified function relies on is
+	// verified in the same run, unless it is marked trusted (then it is reported as an assumption)
+	done := map[string]bool{}
+	for _, r := range reps {
+		done[r.Key] = true
+	}
+	var trustedRepo []string
+	for i := 0; i < len(reps); i++ {
+		for _, k := range reps[i].Modular {
+			if done[k] {
+				continue
+			}
+			done[k] = true
+			ct := s.DB.ByKey[k]
+			if ct == nil {
+				continue
+			}
+			if ct.Opts["trusted"] {
+				trustedRepo = append(trustedRepo, k)
+				continue
+			}
+			reps = append(reps, s.verifyFunc(prop, ct))
+		}
+	}
+	sort.Strings(trustedRepo)
+	for _, k := range trustedRepo {
+		cfg.Assumptions = append(cfg.Assumptions, "assumed (unverified) contract of repository function "+k+" (opt trusted)")
 	}
 	dir := filepath.Join(outDir(), "smt", prop)
 	os.RemoveAll(dir)
